@@ -722,9 +722,19 @@ def c11(tier, hook=None):
         rejected = r.get("class") == "compile_error" and not any(x["kind"] == "impl" for x in r["items"])
         if not rejected:
             mods.append((i, rf.default_module(i, P, entry, bounds=bnd)))
-    mods = T(mods)
+    # default values that contain an `expr` fragment of a macro_rules! macro keep the fragment's grouping
+    frag0 = len(cases) + 10
+    fmods = [(frag0 + k, rf.default_fragment_module(frag0 + k, entry)) for k, entry in enumerate(("attr", "derive"))] if not hook else []
+    mods = T(mods + fmods)
     res, failed = run_modules(mods, "c11")
     events, emeta = [], []
+    for fi, _src in fmods:
+        if fi in res:
+            j = res[fi][0]
+            events.append({"ev": "same_as_twin", "equal": j["equal"], "got": j["got"], "want": j["want"]})
+        else:
+            events.append({"ev": "rustc_failed"})
+        emeta.append({"P": {"kind": "macro_fragment", "tv": "none", "variants": []}, "entry": "attr", "idx": fi, "diags": failed.get(fi), "bounds": None, "fragment": _src})
     for i, ((P, entry, bnd), r) in enumerate(zip(cases, resps)):
         rejected = r.get("class") == "compile_error" and not any(x["kind"] == "impl" for x in r["items"])
         if rejected:
@@ -744,6 +754,10 @@ def c11(tier, hook=None):
         sig = {"kind": e["ev"], "item": P["kind"], "tv": P["tv"], "marks": [v["dmark"] for v in P["variants"]], "vv": [v["vv"] for v in P["variants"]],
                "rejected": e.get("rejected"), "dv": "+".join(dvs) if e["ev"] == "rustc_failed" else None, "bounds": m.get("bounds"),
                "codes": ",".join(sorted(set(d.get("code") or "?" for d in (m.get("diags") or []))))}
+        if "fragment" in m:
+            ck.violation({"kind": "default_value_with_macro_fragment", "equal": e.get("equal"), "got": e.get("got")},
+                         {"what": "a default value containing an `expr` fragment of a macro_rules! macro lost the fragment's grouping", "event": e, "source": m["fragment"], "diags": m.get("diags")})
+            continue
         ck.violation(sig, {"what": "default() differs from the documented value / rejection rule", "event": e, "source": rf.default_module(m["idx"], P, m["entry"], bounds=m.get("bounds")),
                            "diags": m.get("diags")})
     ck.sample(next((e for e in events if e["ev"] == "default" and not e["rejected"] and len(e["prov"]) >= 2), None))
